@@ -98,7 +98,10 @@ func TestVerifC13MagicSplit(t *testing.T) {
 		if err := json.Unmarshal([]byte(rc), &cs); err != nil {
 			t.Fatalf("bad replay case: %v", err)
 		}
-		vfRunSplit(cs, func(msg string) { t.Fatalf("%s\ncase %+v", msg, cs) })
+		vfRunSplit(cs, func(msg string) {
+			fmt.Printf("VERIF-REPLAY-CASE: %s\n", rc)
+			t.Fatalf("%s\ncase %+v", msg, cs)
+		})
 		return
 	}
 	c := ev.For("C13")
@@ -107,28 +110,34 @@ func TestVerifC13MagicSplit(t *testing.T) {
 	seed := uint64(ev.IntEnv("VERIF_SEED", 1))
 	idx := 0
 	var total int64
-	for arr := 0; arr < 3; arr++ {
-		for j := 1; j < refobfs3.MagicLen; j++ {
-			for v := 0; v < 3; v++ {
-				idx++
-				if idx%nshards != shard {
-					continue
-				}
-				cs := vfSplitCase{Arr: arr, J: j, Variant: v, Seed: seed*1000003 + uint64(idx)}
-				vfRunSplit(cs, func(msg string) {
-					js, _ := json.Marshal(cs)
-					fmt.Printf("VERIF-REPLAY-CASE: %s\n", js)
-					t.Fatalf("%s\ncase %+v", msg, cs)
-				})
-				total++
-				c.Class("split-enum", 1)
-				c.Class("split-enum-"+vfArrNames[arr], 1)
-				if idx%61 == 0 {
-					c.Sample(ev.Hash("split", idx), map[string]any{"case": cs})
+	reps := 1
+	if ev.Thorough() {
+		reps = 8 // the same enumeration with 8 different key / padding / payload choices
+	}
+	for rep := 0; rep < reps; rep++ {
+		for arr := 0; arr < 3; arr++ {
+			for j := 1; j < refobfs3.MagicLen; j++ {
+				for v := 0; v < 3; v++ {
+					idx++
+					if idx%nshards != shard {
+						continue
+					}
+					cs := vfSplitCase{Arr: arr, J: j, Variant: v, Seed: seed*1000003 + uint64(idx)}
+					vfRunSplit(cs, func(msg string) {
+						js, _ := json.Marshal(cs)
+						fmt.Printf("VERIF-REPLAY-CASE: %s\n", js)
+						t.Fatalf("%s\ncase %+v", msg, cs)
+					})
+					total++
+					c.Class("split-enum", 1)
+					c.Class("split-enum-"+vfArrNames[arr], 1)
+					if idx%61 == 0 {
+						c.Sample(ev.Hash("split", idx), map[string]any{"case": cs})
+					}
 				}
 			}
 		}
 	}
 	c.Bulk(total, total)
-	c.Subspace("magic straddling segments: 3 arrangements x 31 interior offsets x 3 variants (both directions each)", total)
+	c.Subspace(fmt.Sprintf("magic straddling segments: 3 arrangements x 31 interior offsets x 3 variants (both directions each) x %d parameter choices", reps), total)
 }
